@@ -111,15 +111,16 @@ def is_aggregate_key(key: str) -> bool:
     return ":" in key and not key.startswith(":")
 
 
-# A string that must start and end with quotes, and somewhere inside includes
+# A dynamic expression is a string that starts and ends with the same quote, and somewhere inside includes
 # at least one tag. Tag may be variable (`{{ }}`), block (`{% %}`), or comment (`{# #}`).
+#
+# NOTE: The quotes are checked with plain string operations, and only the search for the tag uses a regex.
+#       A single regex `^quote.*?(?:tag).*?quote$` needs cubic time on long strings that are NOT wrapped in quotes.
 DYNAMIC_EXPR_RE = re.compile(
-    r"^{start_quote}.*?(?:{var_tag}|{block_tag}|{comment_tag}).*?{end_quote}$".format(
+    r"{var_tag}|{block_tag}|{comment_tag}".format(
         var_tag=r"(?:\{\{.*?\}\})",
         block_tag=r"(?:\{%.*?%\})",
         comment_tag=r"(?:\{#.*?#\})",
-        start_quote=r"(?P<quote>['\"])",  # NOTE: Capture group so we check for the same quote at the end
-        end_quote=r"(?P=quote)",
     )
 )
 
@@ -132,14 +133,19 @@ def is_dynamic_expression(value: Any) -> bool:
     if not isinstance(value, str) or not value or len(value) < MIN_EXPR_LEN:
         return False
 
-    # Is not wrapped in quotes, or does not contain any tags
-    if not DYNAMIC_EXPR_RE.match(value):
+    # Is not wrapped in (the same) quotes. A single trailing newline is tolerated, same as with regex `$`.
+    text = value[:-1] if value.endswith("\n") else value
+    if text[0] not in ("'", '"') or text[-1] != text[0]:
+        return False
+
+    # Does not contain any tags, or spans multiple lines
+    inner = text[1:-1]
+    if "\n" in inner or not DYNAMIC_EXPR_RE.search(inner):
         return False
 
     return True
 
 
-# TODO - Move this out into a plugin?
 def process_aggregate_kwargs(params: List["TagParam"]) -> List["TagParam"]:
     """
     This function aggregates "prefixed" kwargs into dicts. "Prefixed" kwargs
